@@ -91,6 +91,18 @@ impl PLL {
     }
 }
 
+#[cfg(idsp_verif)]
+impl PLL {
+    /// Verification hook: construct from raw state `(x, y0, f0, f, y)`.
+    pub fn verif_from_raw(x: i32, y0: i32, f0: i32, f: i64, y: i64) -> Self {
+        Self { x, y0, f0, f, y }
+    }
+    /// Verification hook: raw state `(x, y0, f0, f, y)`.
+    pub fn verif_raw(&self) -> (i32, i32, i32, i64, i64) {
+        (self.x, self.y0, self.f0, self.f, self.y)
+    }
+}
+
 #[cfg(test)]
 mod tests {
     use super::*;
